@@ -155,7 +155,19 @@ class ElectronRepulsionIntegral(BaseFourIndexSymmetric):
         if not isinstance(cont_four, GeneralizedContractionShell):
             raise TypeError("`cont_four` must be a `GeneralizedContractionShell` instance.")
 
-        # TODO: we can probably swap the contractions to get the optimal time or memory usage
+        # The electron-transfer step multiplies rounding errors by (bra exponents / ket exponents)
+        # once per unit of angular momentum of the ket. Use as bra the pair for which this
+        # amplification is smaller, and un-swap the axes of the result at the end.
+        angmom_bra = cont_one.angmom + cont_two.angmom
+        angmom_ket = cont_three.angmom + cont_four.angmom
+        exps_bra = cont_one.exps[:, None] + cont_two.exps[None, :]
+        exps_ket = cont_three.exps[:, None] + cont_four.exps[None, :]
+        swap_bra_ket = angmom_bra * np.log(exps_ket.max() / exps_bra.min()) < angmom_ket * np.log(
+            exps_bra.max() / exps_ket.min()
+        )
+        if swap_bra_ket:
+            cont_one, cont_two, cont_three, cont_four = cont_three, cont_four, cont_one, cont_two
+
         if cont_one.angmom == cont_two.angmom == cont_three.angmom == cont_four.angmom == 0:
             integrals = _compute_two_elec_integrals_angmom_zero(
                 cls.boys_func,
@@ -197,8 +209,8 @@ class ElectronRepulsionIntegral(BaseFourIndexSymmetric):
                 cont_four.coeffs,
             )
         integrals = np.transpose(integrals, (4, 0, 5, 1, 6, 2, 7, 3))
-
-        # TODO: if we swap the contractions, we need to unswap them here
+        if swap_bra_ket:
+            integrals = np.transpose(integrals, (4, 5, 6, 7, 0, 1, 2, 3))
 
         return integrals
 
